@@ -252,13 +252,16 @@ def granterOk (tx : Tx) : Bool :=
   | none => true
   | some g => (decodeAcc g).isSome && decodeAcc g == feePayer tx
 
-/-- `ValidateFeeder`: the validator exists and is bonded; the feeder is its operator or the delegate stored under that spelling -/
+/-- `ValidateFeeder` as the admission check calls it: with the validator's address decoded and written out again, that is under the
+canonical (lower-case) spelling whatever the message spells. The validator exists and is bonded; the feeder is its operator or the
+delegate stored under the canonical spelling. (A consent sent under the upper-case spelling is stored under that spelling and is
+never looked at here.) -/
 def validateFeeder (s : State) (feeder : Acct) (validator : String) : Bool :=
   match decodeVal validator with
   | none => false
   | some i => match getVal s.vals i with
     | none => false
-    | some v => v.bonded && (feeder == opAcc i || (alGet s.os.feeders validator).getD (opAcc i) == feeder)
+    | some v => v.bonded && (feeder == opAcc i || (alGet s.os.feeders (valName i)).getD (opAcc i) == feeder)
 
 def validatorOfOracleMsg : Msg → Option String
   | .op _ (.prevote _ v _ _) => some v
